@@ -1,4 +1,5 @@
 import PoolModel.C18
+import PoolModel.C18Client
 import PoolModel.Util
 import PoolModel.Sha256
 /-! Line-protocol driver for the C18 model.
@@ -10,6 +11,8 @@ import PoolModel.Sha256
   atomic steps of `Switch.step`; see `swSend`/`swTake`). -/
 namespace Pool.C18
 open Pool.Util
+
+def bit (b : Bool) : String := if b then "1" else "0"
 
 def sha (b : Bytes) : Bytes := Pool.Sha256.sha256 b
 
@@ -24,6 +27,7 @@ structure DrvSt where
   sw : Switch := {}
   /-- a `Divert`/`Restore` call blocked on the mutex held by `run` -/
   waiter : Option Act := none
+  cl : Client := {}
 
 def drvInit : DrvSt := {}
 
@@ -64,7 +68,32 @@ def fmtDelivered (l : List (Nat × Target × Bool)) : String :=
 def parseTarget (s : String) : Option Target :=
   if s == "main" then some .main else s.toNat?.map .temp
 
-def bit (b : Bool) : String := if b then "1" else "0"
+/-! ### whole-client ops: `cl reset` | `cl <sub|err|shut> <acct> <refuse> <beh,..|-> <a.b/c.d|->` -/
+
+def parseBeh (s : String) : Option Beh :=
+  if s == "ok" then some .ok else if s == "errBC" then some .errBC else if s == "shutBC" then some .shutBC
+  else if s == "errAC" then some .errAC else if s == "shutAC" then some .shutAC else none
+
+def parseList {α} (sep : String) (f : String → Option α) (s : String) : Option (List α) :=
+  if s == "-" then some [] else (s.splitOn sep).mapM f
+
+def fmtNats (l : List Nat) : String :=
+  if l.isEmpty then "-" else joinWith "." ((sortList l).map toString)
+
+def fmtErrs (l : List ErrClass) : String :=
+  if l.isEmpty then "-" else joinWith "," (l.map fun
+    | .none_ => "nil" | .serverErrored => "ErrServerErrored" | .other => "other")
+
+def clStep (d : DrvSt) (op : Op) (refuse : Nat) (beh : List Beh) (orders : List (List Nat)) : DrvSt × String :=
+  let c0 := d.cl.script refuse beh orders
+  let (c, ret) := c0.step op
+  let out :=
+    if c.badOrder then "bad-order" else if c.chaos then "chaos" else
+    let r := match ret with | .none_ => "-" | .ok => "ok" | .err => "err"
+    s!"ret={r} main={fmtErrs c.mainErrs} handler={fmtErrs c.handlerRes} new={c.streams.length - c0.streams.length} " ++
+    s!"attempts={c.attempts - c0.attempts} map={fmtNats c.accts} cur={fmtNats c.cur.success} " ++
+    s!"subs={fmtNats c.cur.subs} alive={bit c.cur.alive} open={bit c.isOpen}"
+  ({ d with cl := c }, out)
 
 def drvStep (d : DrvSt) (args : List String) : DrvSt × String :=
   match args with
@@ -95,6 +124,13 @@ def drvStep (d : DrvSt) (args : List String) : DrvSt × String :=
       let c := connect i mn mx r f
       (d, s!"ok={bit c.ok} waits={fmtInts c.waits} backoffs={fmtInts c.backoffs}")
     | _, _, _, _, _ => (d, "bad-op")
+  | ["cl", "reset"] => ({ d with cl := {} }, "ok")
+  | ["cl", kind, a, k, b, o] =>
+    let op : Option Op := if kind == "sub" then a.toNat?.map .sub else if kind == "err" then some .errIdle
+      else if kind == "shut" then some .shutIdle else none
+    match op, k.toNat?, parseList "," parseBeh b, parseList "/" (fun t => if t == "e" then some [] else parseList "." String.toNat? t) o with
+    | some op, some k, some b, some o => clStep d op k b o
+    | _, _, _, _ => (d, "bad-op")
   | ["sw", "reset"] => ({ d with sw := {}, waiter := none }, "ok")
   | ["sw", "send", e] =>
     match e.toNat? with
